@@ -153,10 +153,6 @@ def outer3 (T : Comp) (i j k : ℕ) : ℚ := T.u i * T.v j * T.w k
 /-- `np.einsum("ijk, i, j, k -> ...", values, u, v, w)`. -/
 def coef (n m₁ m₂ : ℕ) (R : ℕ → ℕ → ℕ → ℚ) (T : Comp) : ℚ := ip3 n m₁ m₂ R (outer3 T)
 
-/-- Σ|terms| of `coef` (scale of the float tolerance). -/
-def coefAbs (n m₁ m₂ : ℕ) (R : ℕ → ℕ → ℕ → ℚ) (T : Comp) : ℚ :=
-  ip3 n m₁ m₂ (fun i j k => |R i j k|) (fun i j k => |outer3 T i j k|)
-
 /-- One deflation step `values - c * einsum("i,j,k->ijk", u, v, w)` with the coded
 coefficient, stored. -/
 def deflate1 (n m₁ m₂ : ℕ) (R : T3) (T : Comp) : T3 :=
@@ -206,5 +202,20 @@ def normEigenvalue (r : ℕ → ℚ) (lam : ℕ → ℚ) (k : ℕ) : ℚ := lam 
 (`n_points = m₁·m₂` with normalisation, `1` without). -/
 def transformNumInt (m₁ m₂ : ℕ) (div : ℚ) (X : ℕ → ℕ → ℕ → ℚ) (E : ℕ → ℕ → ℕ → ℚ) (i k : ℕ) : ℚ :=
   (∑ j ∈ range m₁, ∑ l ∈ range m₂, X i j l * E k j l) / div
+
+/-! ### The first step of `_update_components` (only what the open finding
+`C17-zero-residual-nan` needs; the rest of the update is an oracle) -/
+
+/-- `np.einsum("i, j, kij -> k", v, w, data)`: right-hand side of the `u` update. -/
+def powerU (m₁ m₂ : ℕ) (R : ℕ → ℕ → ℕ → ℚ) (v w : ℕ → ℚ) (i : ℕ) : ℚ :=
+  ∑ j ∈ range m₁, ∑ k ∈ range m₂, v j * w k * R i j k
+
+/-- `u = solve(I, b) / (v_cross * w_cross)` with `d = v_cross * w_cross`. -/
+def updateU (m₁ m₂ : ℕ) (R : ℕ → ℕ → ℕ → ℚ) (v w : ℕ → ℚ) (d : ℚ) (i : ℕ) : ℚ :=
+  powerU m₁ m₂ R v w i / d
+
+/-- `u_cross = _compute_denominator(u, 0, 0) = uᵀu`: the `v` and `w` updates divide by it. -/
+def uCross (n m₁ m₂ : ℕ) (R : ℕ → ℕ → ℕ → ℚ) (v w : ℕ → ℚ) (d : ℚ) : ℚ :=
+  dot n (updateU m₁ m₂ R v w d) (updateU m₁ m₂ R v w d)
 
 end FDA.FCPTPA
